@@ -41,14 +41,14 @@ def _fn(direction):
 def _call(direction, case, zone, east, north, h="case", vcv="case"):
     f = _fn(direction)
     hh = case.get("h") if h == "case" else h
-    vv = case.get("vcv") if vcv == "case" else vcv
+    vv = case.get("vcv") if isinstance(vcv, str) and vcv == "case" else vcv
     nk = case.get("num", "float")
     args = [zone, S.as_kind(east, nk), S.as_kind(north, nk)]
     kw = {}
     if hh is not None:
         kw["ell_ht"] = S.as_kind(hh, nk)
     if vv is not None:
-        kw["vcv"] = np.array(vv, dtype=float)
+        kw["vcv"] = vv if isinstance(vv, np.ndarray) else np.array(vv, dtype=float)     # an ndarray is passed as it is
     r = f(*args, **kw)
     if not (isinstance(r, tuple) and len(r) == 5):
         raise Fail("transform_mga* did not return (zone, east, north, height, vcv)", observed=repr(r))
@@ -125,9 +125,9 @@ def check_definition(case):
     Xl = closed_form(lat2, lon2, h2, A_GRS, INVF_GRS)
     dx = math.sqrt(sum((u - v) ** 2 for u, v in zip(X2, Xl)))
     metric("pipeline_vs_reference_m", dx)
-    if not dx <= 1e-4:
+    if not dx <= 3e-5:
         raise Fail("the transformed geographic position is not the published GDA94/GDA2020 similarity transformation of the input "
-                   "(independent reference, 0.1 mm)", expected=X2, observed={"lat": lat2, "lon": lon2, "h": h2, "xyz": Xl, "dist_m": dx})
+                   "(independent reference, 0.03 mm: the Cartesian -> geographic step is good to 0.02 mm by C03)", expected=X2, observed={"lat": lat2, "lon": lon2, "h": h2, "xyz": Xl, "dist_m": dx})
     e0, n0, _, _ = tm_exact.project(lat2, lon2, cm, A_GRS, INVF_GRS, 0.9996, 500000.0, 10000000.0)
     dg = math.hypot(got[1] - e0, got[2] - n0)
     if not dg <= 2e-4:
@@ -147,10 +147,14 @@ def check_covariance(case):
     z, e, n = case["zone"], case["east"], case["north"]
     h = case.get("h")
     V = np.array(case["vcv"], dtype=float)
-    Vin = V.copy()
-    got = _call(d1, case, z, e, n)
-    if not np.array_equal(V, Vin):
-        raise Fail("transform_mga* modified the caller's covariance", expected=Vin, observed=V)
+    if case.get("column"):
+        # a 3x1 column of variances: an uncorrelated (diagonal) local covariance
+        V = np.array([[abs(V[0, 0])], [abs(V[1, 1])], [abs(V[2, 2])]])
+    Vpassed = V.copy()
+    got = _call(d1, case, z, e, n, vcv=V)
+    if not np.array_equal(V, Vpassed):
+        raise Fail("transform_mga* modified the caller's covariance", expected=Vpassed, observed=V)
+    Vin = np.diagflat(V) if case.get("column") else V
     out = got[4]
     if out is None or getattr(out, "shape", None) != (3, 3):
         raise Fail("a local covariance was supplied but no 3x3 local covariance was returned", observed=repr(out))
@@ -207,6 +211,7 @@ def mga_cases(draw, with_vcv=False):
             c["h"] = float(round(h))
     if with_vcv:
         c["vcv"] = draw(TR.psd3())
+        c["column"] = draw(st.integers(0, 3)) == 0
     return c
 
 
@@ -240,6 +245,7 @@ def _classes(case):
     if "vcv" in case:
         V = np.array(case["vcv"])
         out.append("vcv-rank:%d" % (int(np.linalg.matrix_rank(V)) if V.any() else 0))
+        out.append("vcv:3x1-column" if case.get("column") else "vcv:3x3")
     return out
 
 
@@ -252,7 +258,7 @@ SUBCHECKS = [
     SubCheck("equals_definition", check_definition, strategy=mga_cases(), nontrivial=_nt, classes=_classes,
              quick=2000, thorough=150000, shards_quick=4, shards_thorough=16, seq_groups=G_ALL,
              rule="each direction == stepwise composition with the library's own steps (exact), natural zone, no-height rule; "
-                  "and == independent reference pipeline (exact TM, closed-form Cartesian, reference Helmert) within 0.1 / 0.2 mm"),
+                  "and == independent reference pipeline (exact TM, closed-form Cartesian, reference Helmert) within 0.03 / 0.2 mm"),
     SubCheck("equals_definition_whole_utm", check_definition_wide, strategy=utm_south_cases(), nontrivial=_nt, classes=_classes,
              quick=1500, thorough=100000, shards_quick=3, shards_thorough=12,
              rule="the same on the whole southern UTM domain of C02 (zones 1..60, |lon - CM| <= 30 deg)"),
